@@ -306,13 +306,13 @@ def qr_find_scp(asce, ctx, msg):
     ds = dsutils.decode(msg.data_set, ctx.supported_ts.is_implicit_VR,
                         ctx.supported_ts.is_little_endian)
 
-    # make response
-    rsp = dimsemessages.CFindRSPMessage()
-    rsp.message_id_being_responded_to = msg.message_id
-    rsp.sop_class_uid = msg.sop_class_uid
-
     gen = asce.ae.on_receive_find(ctx, ds)
     for data_set, status in gen:
+        # one response object per match: send() only queues the message, it is encoded
+        # later by the DUL thread and must not be modified in the meantime
+        rsp = dimsemessages.CFindRSPMessage()
+        rsp.message_id_being_responded_to = msg.message_id
+        rsp.sop_class_uid = msg.sop_class_uid
         rsp.status = int(status)
         rsp.data_set = dsutils.encode(data_set,
                                       ctx.supported_ts.is_implicit_VR,
